@@ -1,11 +1,19 @@
 /-
   C06 — loops and conditionals execute exactly the iterations the manual prescribes.
 
-  Property theorems only (helpers: Proofs/Lemmas/Vars.lean). Model: `forLoop` / `whileLoop`
-  (Model/Interp.lean), the transcription of FORStatement::doit / WHILEStatement::doit, for an
-  ARBITRARY body runner; Spec: `Spec.forRange` (Spec/Loops.lean).
+  Property theorems only (helpers: Proofs/Lemmas/Vars.lean, Loops.lean, Interp.lean). Model: `forLoop` /
+  `whileLoop` / `forallLoop` (Model/Interp.lean), the transcriptions of FORStatement::doit /
+  WHILEStatement::doit / FORALLStatement::doit for an ARBITRARY body runner, and the statement level
+  `exec … (.forS …)`, `(.forallS …)`, `(.letS …)`; Spec: `Spec.forRange` / `forCount` / `forValues`
+  (Spec/Loops.lean), `forallOrder` (Model/Members.lean, characterised in C09).
+
+  Clause table (property text → theorem): see notes/NOTES-p0608.md.
 -/
 import BlocV.Proofs.Lemmas.Vars
+import BlocV.Proofs.Lemmas.Loops
+import BlocV.Proofs.Lemmas.Interp
+import BlocV.Proofs.Lemmas.Int64
+import BlocV.Proofs.C09
 import BlocV.Spec.Loops
 
 namespace BlocV.C06
@@ -49,70 +57,801 @@ theorem toInt_add_small (a b : Int64) (h1 : -2 ^ 63 ≤ a.toInt + b.toInt) (h2 :
   rw [Int64.toInt_add]
   apply Int.bmod_eq_of_le <;> omega
 
-/-- **Ascending loop.** For a quiet body, the loop entered with the control variable at `cur ≤ max`
-and a positive step runs the body exactly for `cur, cur+step, … ≤ max` — computed on mathematical
-integers, so it never wraps around, also at INT64_MAX — and ends normally, whenever the fuel covers
-the number of values. -/
-theorem forLoop_visits_up (body : EvalM Flow) (v : String) (min max step : Int64)
-    (hq : Quiet body v) (hstep : 0 < step.toInt) :
+
+/-- **One re-entry of FORStatement::doit, for ANY body** (also one that assigns the control variable): after a body run that
+ends normally or with `continue`, with the control variable then holding `cur`, the loop ends iff `cur + step` — computed on
+mathematical integers — leaves `[min, max]` in the direction of the step; otherwise the variable becomes `cur + step` (which
+then cannot have wrapped) and the loop re-enters. This is the model of the repaired increment (statement_for.cpp). -/
+theorem forLoop_iteration (body : EvalM Flow) (v : String) (min max step : Int64) (k : Nat) (s s1 : St) (r : Flow)
+    (cur : Int64) (hb : body s = (.ok r, s1)) (hr : r = .norm ∨ r = .cont) (hv : lookupVar s1.vars v = .int cur) :
+    forLoop body v min max step (k + 1) s =
+      if (step > 0 && cur.toInt + step.toInt > max.toInt) || (step < 0 && cur.toInt + step.toInt < min.toInt)
+      then (.ok .norm, s1)
+      else forLoop body v min max step k { s1 with vars := setVar s1.vars v (.int (cur + step)) } := by
+  have hasInt : (Val.int cur).asInt = .ok cur := rfl
+  rcases hr with rfl | rfl
+  all_goals
+    by_cases hc : ((step > 0 && cur.toInt + step.toInt > max.toInt) || (step < 0 && cur.toInt + step.toInt < min.toInt)) = true
+    · rw [if_pos hc]
+      unfold forLoop
+      simp only [bind, hb, getSt, liftM, monadLift, MonadLift.monadLift, hv, hasInt, pure, modifySt, hc]
+      rfl
+    · rw [if_neg hc]
+      conv => lhs; unfold forLoop
+      simp only [bind, hb, getSt, liftM, monadLift, MonadLift.monadLift, hv, hasInt, pure, modifySt, hc]
+      rfl
+
+def QuietAt (body : EvalM Flow) (v : String) (s : St) : Prop :=
+  ((body s).1 = .ok .norm ∨ (body s).1 = .ok .cont) ∧ lookupVar (body s).2.vars v = lookupVar s.vars v
+
+def QuietAlong (body : EvalM Flow) (v : String) : St → List Int → Prop
+  | _, [] => True
+  | s, [_] => QuietAt body v s
+  | s, _ :: y :: rest => QuietAt body v s ∧ QuietAlong body v (setK v (bodySt body s) y) (y :: rest)
+
+/-- unfolding of `runOver` by one value -/
+theorem runOver_cons_cons (body : EvalM Flow) (v : String) (s : St) (x y : Int) (rest : List Int) :
+    runOver body v s (x :: y :: rest) = runOver body v (setK v (bodySt body s) y) (y :: rest) := rfl
+
+/-- a globally quiet body is quiet along every run -/
+theorem quietAlong_of_quiet (body : EvalM Flow) (v : String) (hq : Quiet body v) : ∀ (l : List Int) (s : St), QuietAlong body v s l := by
+  intro l
+  induction l with
+  | nil => intro s; trivial
+  | cons x rest ih =>
+    intro s
+    cases rest with
+    | nil => exact ⟨hq.norm s, hq.keeps s⟩
+    | cons y rest => exact ⟨⟨hq.norm s, hq.keeps s⟩, ih _⟩
+
+/-- **Ascending loop, run-local hypothesis.** Like `forLoop_visits_up`, but the body only has to be quiet along the run that
+actually happens (`QuietAlong`: each of the prescribed iterations, when it runs, ends normally/with `continue` and leaves the control
+variable alone) — the hypothesis a real statement body can satisfy (a body made of statements is never quiet in EVERY state: with an
+exhausted work budget it stops as `oof`). Values are computed in `Int`: no wrap-around at INT64_MAX. -/
+theorem forLoop_visits_up_along (body : EvalM Flow) (v : String) (min max step : Int64) (hstep : 0 < step.toInt) :
     ∀ (k : Nat) (cur : Int64) (s : St), lookupVar s.vars v = .int cur → cur.toInt ≤ max.toInt →
       (Spec.upFrom k cur.toInt max.toInt step.toInt).length < k →
+      QuietAlong body v s (Spec.upFrom k cur.toInt max.toInt step.toInt) →
       forLoop body v min max step k s =
         (.ok .norm, runOver body v s (Spec.upFrom k cur.toInt max.toInt step.toInt)) := by
   intro k
   induction k with
   | zero => intro cur s _ _ hl; simp [Spec.upFrom] at hl
   | succ k ih =>
-    intro cur s hcur hle hl
+    intro cur s hcur hle hl hq
     have hgt : ¬ (cur.toInt > max.toInt) := by omega
-    simp only [Spec.upFrom, hgt, if_false] at hl ⊢
-    -- one run of the body
-    cases hbs : body s with
-    | mk r s1 =>
-    have hs1 : bodySt body s = s1 := by simp [bodySt, hbs]
-    have hr : r = .ok .norm ∨ r = .ok .cont := by have := hq.norm s; rw [hbs] at this; exact this
-    have hk : lookupVar s1.vars v = .int cur := by have := hq.keeps s; rw [hbs] at this; rw [this, hcur]
+    simp only [Spec.upFrom, hgt, if_false] at hl hq ⊢
     have hstep64 : (step > 0) := by
       show (0 : Int64) < step
       rw [Int64.lt_iff_toInt_lt]; exact hstep
     have hstepneg : ¬ (step < 0) := by rw [Int64.lt_iff_toInt_lt]; show ¬ step.toInt < 0; omega
-    have hasInt : (Val.int cur).asInt = .ok cur := rfl
-    unfold forLoop
-    simp only [runOver]
-    rw [hs1]
-    rcases hr with hn | hn
-    all_goals
-      subst hn
-      simp only [bind, hbs, getSt, liftM, monadLift, MonadLift.monadLift, hk, hasInt, pure]
-      by_cases hstop : cur.toInt + step.toInt > max.toInt
-      · -- the next value leaves the range: the loop ends; the spec list is [cur]
-        have : Spec.upFrom k (cur.toInt + step.toInt) max.toInt step.toInt = [] := by
-          cases k <;> simp [Spec.upFrom, hstop]
-        simp [hstep64, hstop, this]
-      · have hnxt : (cur + step).toInt = cur.toInt + step.toInt := by
-          apply toInt_add_small
-          · have := Int64.le_toInt cur; omega
-          · have := Int64.toInt_lt max; omega
+    cases hbs : body s with
+    | mk r s1 =>
+    have hs1 : bodySt body s = s1 := by simp [bodySt, hbs]
+    by_cases hstop : cur.toInt + step.toInt > max.toInt
+    · have hnil : Spec.upFrom k (cur.toInt + step.toInt) max.toInt step.toInt = [] := by
+        cases k <;> simp [Spec.upFrom, hstop]
+      rw [hnil] at hq ⊢
+      obtain ⟨hn, hkeep⟩ := hq
+      rw [hbs] at hn hkeep
+      simp only at hn hkeep
+      have hr : ∃ fl, r = .ok fl ∧ (fl = .norm ∨ fl = .cont) := by
+        rcases hn with h | h
+        · exact ⟨_, h, Or.inl rfl⟩
+        · exact ⟨_, h, Or.inr rfl⟩
+      obtain ⟨fl, rfl, hfl⟩ := hr
+      rw [forLoop_iteration body v min max step k s s1 fl cur hbs hfl (by rw [hkeep, hcur])]
+      simp [hstep64, hstop, runOver, hs1]
+    · have hnxt : (cur + step).toInt = cur.toInt + step.toInt := by
+        apply toInt_add_small
+        · have := Int64.le_toInt cur; omega
+        · have := Int64.toInt_lt max; omega
+      have e : Int64.ofInt (cur.toInt + step.toInt) = cur + step := by rw [← hnxt, Int64.ofInt_toInt]
+      cases k with
+      | zero => simp [Spec.upFrom] at hl
+      | succ k' =>
+        have hcons : Spec.upFrom (k' + 1) (cur.toInt + step.toInt) max.toInt step.toInt =
+            (cur.toInt + step.toInt) :: Spec.upFrom k' (cur.toInt + step.toInt + step.toInt) max.toInt step.toInt := by
+          simp [Spec.upFrom, hstop]
+        rw [hcons] at hq
+        obtain ⟨⟨hn, hkeep⟩, hrest⟩ := hq
+        rw [hbs] at hn hkeep
+        simp only at hn hkeep
+        have hr : ∃ fl, r = .ok fl ∧ (fl = .norm ∨ fl = .cont) := by
+          rcases hn with h | h
+          · exact ⟨_, h, Or.inl rfl⟩
+          · exact ⟨_, h, Or.inr rfl⟩
+        obtain ⟨fl, rfl, hfl⟩ := hr
+        rw [forLoop_iteration body v min max step (k' + 1) s s1 fl cur hbs hfl (by rw [hkeep, hcur])]
         have hcond : ((decide (step > 0) && decide (cur.toInt + step.toInt > max.toInt)) ||
             (decide (step < 0) && decide (cur.toInt + step.toInt < min.toInt))) = false := by
           simp [hstop, hstepneg]
         rw [hcond]
-        simp only [Bool.false_eq_true, ↓reduceIte, modifySt]
-        have hl' : (Spec.upFrom k (cur + step).toInt max.toInt step.toInt).length < k := by
-          rw [hnxt]; simp only [List.length_cons] at hl; omega
+        simp only [Bool.false_eq_true, if_false]
         have hlook : lookupVar ({ s1 with vars := setVar s1.vars v (.int (cur + step)) } : St).vars v = .int (cur + step) :=
           lookup_setVar _ _ _
-        have := ih (cur + step) _ hlook (by rw [hnxt]; omega) hl'
-        rw [this, hnxt]
-        -- the spec list continues with cur+step
-        cases hk2 : k with
-        | zero => simp [hk2, Spec.upFrom] at hl'
-        | succ k' =>
-          have hgt2 : ¬ (cur.toInt + step.toInt > max.toInt) := hstop
-          simp only [Spec.upFrom, hgt2, if_false, runOver, List.foldl_cons, setK, bodySt]
-          have e : Int64.ofInt (cur.toInt + step.toInt) = cur + step := by rw [← hnxt, Int64.ofInt_toInt]
-          rw [e]
+        have hst : setK v (bodySt body s) (cur.toInt + step.toInt) = { s1 with vars := setVar s1.vars v (.int (cur + step)) } := by
+          simp [setK, hs1, e]
+        rw [hst, ← hcons, ← hnxt] at hrest
+        have := ih (cur + step) _ hlook (by rw [hnxt]; omega) (by rw [hnxt, hcons]; simp only [List.length_cons] at hl ⊢; rw [hcons] at hl; simpa using hl) hrest
+        rw [this, hnxt, hcons, runOver_cons_cons, hst]
+/-- **Descending loop** (`forLoop_visits_down`): the loop entered with the control variable at `cur ≥ min` and a NEGATIVE step runs the
+body exactly for `cur, cur−|step|, … ≥ min` (`Spec.downFrom`), computed on mathematical integers — in particular at INT64_MIN the
+next value `cur + step < −2^63` is recognised as outside the range instead of wrapping to a large positive number — and ends normally. -/
+theorem forLoop_visits_down_along (body : EvalM Flow) (v : String) (min max step : Int64) (hstep : step.toInt < 0) :
+    ∀ (k : Nat) (cur : Int64) (s : St), lookupVar s.vars v = .int cur → min.toInt ≤ cur.toInt →
+      (Spec.downFrom k cur.toInt min.toInt (-step.toInt)).length < k →
+      QuietAlong body v s (Spec.downFrom k cur.toInt min.toInt (-step.toInt)) →
+      forLoop body v min max step k s =
+        (.ok .norm, runOver body v s (Spec.downFrom k cur.toInt min.toInt (-step.toInt))) := by
+  intro k
+  induction k with
+  | zero => intro cur s _ _ hl; simp [Spec.downFrom] at hl
+  | succ k ih =>
+    intro cur s hcur hle hl hq
+    have hgt : ¬ (cur.toInt < min.toInt) := by omega
+    have hsub : cur.toInt - -step.toInt = cur.toInt + step.toInt := by omega
+    simp only [Spec.downFrom, hgt, if_false, hsub] at hl hq ⊢
+    have hstep64 : (step < 0) := by
+      rw [Int64.lt_iff_toInt_lt]; exact hstep
+    have hstepneg : ¬ (step > 0) := by
+      show ¬ (0 : Int64) < step
+      rw [Int64.lt_iff_toInt_lt]; show ¬ 0 < step.toInt; omega
+    cases hbs : body s with
+    | mk r s1 =>
+    have hs1 : bodySt body s = s1 := by simp [bodySt, hbs]
+    by_cases hstop : cur.toInt + step.toInt < min.toInt
+    · have hnil : Spec.downFrom k (cur.toInt + step.toInt) min.toInt (-step.toInt) = [] := by
+        cases k <;> simp [Spec.downFrom, hstop]
+      rw [hnil] at hq ⊢
+      obtain ⟨hn, hkeep⟩ := hq
+      rw [hbs] at hn hkeep
+      simp only at hn hkeep
+      have hr : ∃ fl, r = .ok fl ∧ (fl = .norm ∨ fl = .cont) := by
+        rcases hn with h | h
+        · exact ⟨_, h, Or.inl rfl⟩
+        · exact ⟨_, h, Or.inr rfl⟩
+      obtain ⟨fl, rfl, hfl⟩ := hr
+      rw [forLoop_iteration body v min max step k s s1 fl cur hbs hfl (by rw [hkeep, hcur])]
+      simp [hstep64, hstop, runOver, hs1]
+    · have hnxt : (cur + step).toInt = cur.toInt + step.toInt := by
+        apply toInt_add_small
+        · have := Int64.le_toInt min; omega
+        · have := Int64.toInt_lt cur; omega
+      have e : Int64.ofInt (cur.toInt + step.toInt) = cur + step := by rw [← hnxt, Int64.ofInt_toInt]
+      cases k with
+      | zero => simp [Spec.downFrom] at hl
+      | succ k' =>
+        have hcons : Spec.downFrom (k' + 1) (cur.toInt + step.toInt) min.toInt (-step.toInt) =
+            (cur.toInt + step.toInt) :: Spec.downFrom k' (cur.toInt + step.toInt - -step.toInt) min.toInt (-step.toInt) := by
+          simp [Spec.downFrom, hstop]
+        rw [hcons] at hq
+        obtain ⟨⟨hn, hkeep⟩, hrest⟩ := hq
+        rw [hbs] at hn hkeep
+        simp only at hn hkeep
+        have hr : ∃ fl, r = .ok fl ∧ (fl = .norm ∨ fl = .cont) := by
+          rcases hn with h | h
+          · exact ⟨_, h, Or.inl rfl⟩
+          · exact ⟨_, h, Or.inr rfl⟩
+        obtain ⟨fl, rfl, hfl⟩ := hr
+        rw [forLoop_iteration body v min max step (k' + 1) s s1 fl cur hbs hfl (by rw [hkeep, hcur])]
+        have hcond : ((decide (step > 0) && decide (cur.toInt + step.toInt > max.toInt)) ||
+            (decide (step < 0) && decide (cur.toInt + step.toInt < min.toInt))) = false := by
+          simp [hstop, hstepneg]
+        rw [hcond]
+        simp only [Bool.false_eq_true, if_false]
+        have hlook : lookupVar ({ s1 with vars := setVar s1.vars v (.int (cur + step)) } : St).vars v = .int (cur + step) :=
+          lookup_setVar _ _ _
+        have hst : setK v (bodySt body s) (cur.toInt + step.toInt) = { s1 with vars := setVar s1.vars v (.int (cur + step)) } := by
+          simp [setK, hs1, e]
+        rw [hst, ← hcons, ← hnxt] at hrest
+        have := ih (cur + step) _ hlook (by rw [hnxt]; omega) (by rw [hnxt, hcons]; simp only [List.length_cons] at hl ⊢; rw [hcons] at hl; simpa using hl) hrest
+        rw [this, hnxt, hcons, runOver_cons_cons, hst]
+/-- **Ascending loop.** For a quiet body, the loop entered with the control variable at `cur ≤ max`
+and a positive step runs the body exactly for `cur, cur+step, … ≤ max` — computed on mathematical
+integers, so it never wraps around, also at INT64_MAX — and ends normally, whenever the fuel covers
+the number of values. (Corollary of `forLoop_visits_up_along`.) -/
+theorem forLoop_visits_up (body : EvalM Flow) (v : String) (min max step : Int64)
+    (hq : Quiet body v) (hstep : 0 < step.toInt) :
+    ∀ (k : Nat) (cur : Int64) (s : St), lookupVar s.vars v = .int cur → cur.toInt ≤ max.toInt →
+      (Spec.upFrom k cur.toInt max.toInt step.toInt).length < k →
+      forLoop body v min max step k s =
+        (.ok .norm, runOver body v s (Spec.upFrom k cur.toInt max.toInt step.toInt)) :=
+  fun k cur s h1 h2 h3 => forLoop_visits_up_along body v min max step hstep k cur s h1 h2 h3 (quietAlong_of_quiet body v hq _ _)
 
 example : Spec.upFrom 5 1 10 4 = [1, 5, 9] := by decide
+
+/-- **Descending loop, globally quiet body** (`forLoop_visits_down`), incl. at INT64_MIN: no wrap-around. -/
+theorem forLoop_visits_down (body : EvalM Flow) (v : String) (min max step : Int64)
+    (hq : Quiet body v) (hstep : step.toInt < 0) :
+    ∀ (k : Nat) (cur : Int64) (s : St), lookupVar s.vars v = .int cur → min.toInt ≤ cur.toInt →
+      (Spec.downFrom k cur.toInt min.toInt (-step.toInt)).length < k →
+      forLoop body v min max step k s =
+        (.ok .norm, runOver body v s (Spec.downFrom k cur.toInt min.toInt (-step.toInt))) :=
+  fun k cur s h1 h2 h3 => forLoop_visits_down_along body v min max step hstep k cur s h1 h2 h3 (quietAlong_of_quiet body v hq _ _)
+
+example : Spec.downFrom 5 (-9223372036854775806) (-9223372036854775808) 2 = [-9223372036854775806, -9223372036854775808] := by decide
+/-- at INT64_MIN the model stops instead of wrapping: two iterations, final value of the control variable INT64_MIN -/
+example : (match forLoop (pure .norm) "i" (-9223372036854775808) 0 (-2) 5 { vars := [("i", .int (-9223372036854775806))] } with
+    | (.ok .norm, s) => lookupVar s.vars "i" == .int (-9223372036854775808)
+    | _ => false) = true := by decide +kernel
+
+
+/-- **`Spec.forRange` in closed form**: for every `step ≥ 1` the recursive specification list is
+`first ± i·step` for `i < forCount` — `|limit − first| / step + 1` values when the direction can be met, none otherwise. -/
+theorem forRange_closed_form (first limit step : Int) (dir : Spec.Direction) (hs : 1 ≤ step) :
+    Spec.forRange first limit step dir = Spec.forValues first limit step dir := by
+  unfold Spec.forRange Spec.forValues Spec.forCount
+  by_cases h : limit > first
+  · simp only [h, if_true]
+    by_cases hd : dir = .desc
+    · simp [hd]
+    · simp only [hd, if_false]
+      rw [upFrom_eq_map limit step (by omega)]
+      have hc : upCount first limit step = ((limit - first) / step).toNat + 1 := by
+        unfold upCount; have : ¬ first > limit := by omega
+        simp [this]
+      have := upCount_le first limit step (by omega) (by omega)
+      rw [Nat.min_eq_right this, hc]
+  · simp only [h, if_false]
+    by_cases hd : dir = .asc ∧ limit ≠ first
+    · simp [hd]
+    · simp only [hd, if_false]
+      rw [downFrom_eq_map limit step (by omega)]
+      have hc : downCount first limit step = ((first - limit) / step).toNat + 1 := by
+        unfold downCount; have : ¬ first < limit := by omega
+        simp [this]
+      have := downCount_le first limit step (by omega) (by omega)
+      rw [Nat.min_eq_right this, hc]
+
+/-- The number of iterations is exactly `forCount`: `(|limit − first| / step) + 1`, or 0 when the requested direction cannot be met. -/
+theorem forRange_length (first limit step : Int) (dir : Spec.Direction) (hs : 1 ≤ step) :
+    (Spec.forRange first limit step dir).length = Spec.forCount first limit step dir := by
+  rw [forRange_closed_form first limit step dir hs]; simp [Spec.forValues]
+
+/-- For Int64 bounds and any step a `for` loop makes at most 2^64 iterations. -/
+theorem forCount_le_int64 (bi ei st : Int64) (dir : Spec.Direction) :
+    Spec.forCount bi.toInt ei.toInt st.toInt dir ≤ 2 ^ 64 := by
+  have h1 := Int64.le_toInt bi; have h2 := Int64.toInt_lt bi
+  have h3 := Int64.le_toInt ei; have h4 := Int64.toInt_lt ei
+  unfold Spec.forCount
+  have e1 := Int.ediv_le_self (b := st.toInt) (a := ei.toInt - bi.toInt)
+  have e2 := Int.ediv_le_self (b := st.toInt) (a := bi.toInt - ei.toInt)
+  split <;> split <;> omega
+
+example : Spec.forRange (-9223372036854775808) 9223372036854775807 9223372036854775807 .auto = [-9223372036854775808, -1, 9223372036854775806] := by decide
+example : Spec.forCount 9223372036854775806 9223372036854775807 1 .auto = 2 := by decide
+
+/-- How the optional step expression of a `for` header evaluates: absent = 1. -/
+def StepEval (funcs : List Func) (depth fuel : Nat) (step : Option Expr) (s2 : St) (st : Int64) (s3 : St) : Prop :=
+  match step with
+  | none => st = 1 ∧ s3 = s2
+  | some se => eval funcs depth fuel se s2 = (.ok (.int st), s3)
+
+/-- **FORStatement::doit, first entry**: with bounds evaluating to integers `bi`, `ei` and the step to `st ≥ 1` (absent = 1), each
+expression evaluated exactly once, in the order first, limit, step, each from the state the previous one left, the statement is:
+nothing when the requested direction cannot be met; else the control variable is set to `bi` and the re-entry loop runs ascending
+in `[bi, ei]` with step `st`, or descending in `[ei, bi]` with step `0 − st`. -/
+theorem exec_for_enter (funcs : List Func) (depth fuel : Nat) (v : String) (b e : Expr) (step : Option Expr) (dir : Dir)
+    (body : List Stmt) (s s1 s2 s3 : St) (bi ei st : Int64) (hbud : s.budget ≠ 0)
+    (hb : eval funcs depth fuel b (tick s) = (.ok (.int bi), s1))
+    (he : eval funcs depth fuel e s1 = (.ok (.int ei), s2))
+    (hs : StepEval funcs depth fuel step s2 st s3) (hst : ¬ st < 1) :
+    exec funcs depth (fuel + 1) (.forS v b e step dir body) s =
+      if ei > bi then
+        if dir == .desc then (.ok .norm, s3)
+        else forLoop (execList funcs depth fuel body) v bi ei st fuel { s3 with vars := setVar s3.vars v (.int bi) }
+      else
+        if dir == .asc && ei != bi then (.ok .norm, s3)
+        else forLoop (execList funcs depth fuel body) v ei bi (0 - st) fuel { s3 with vars := setVar s3.vars v (.int bi) } := by
+  have hbud' : (s.budget == 0) = false := by simpa using hbud
+  have h1 : (Val.int bi).isNull = false := rfl
+  have h2 : (Val.int ei).isNull = false := rfl
+  have h3 : (Val.int bi).asInt = .ok bi := rfl
+  have h4 : (Val.int ei).asInt = .ok ei := rfl
+  have h5 : (Val.int st).isNull = false := rfl
+  have h6 : (Val.int st).asInt = .ok st := rfl
+  unfold tick at hb
+  cases step with
+  | none =>
+    obtain ⟨rfl, rfl⟩ := hs
+    simp only [exec, hbud', Bool.false_eq_true, if_false, bind_app, pure_app, modifySt_app, liftM_app, evalM_ite_app, hb, he, h1, h2, h3, h4]
+  | some se =>
+    have hs' : eval funcs depth fuel se s2 = (.ok (.int st), s3) := hs
+    simp only [exec, hbud', Bool.false_eq_true, if_false, bind_app, pure_app, modifySt_app, liftM_app, evalM_ite_app, hb, he, hs', h1, h2, h3, h4, h5, h6, hst]
+
+def specDir : Dir → Spec.Direction
+  | .auto => .auto
+  | .asc => .asc
+  | .desc => .desc
+
+/-- The state after the iterations of a `for` over the values `l`: nothing for the empty list (the
+control variable is not even assigned), else the variable is set to the first value and the body runs
+once per value. -/
+def runFor (body : EvalM Flow) (v : String) (s : St) : List Int → St
+  | [] => s
+  | x :: rest => runOver body v (setK v s x) (x :: rest)
+
+def QuietFor (body : EvalM Flow) (v : String) (s : St) : List Int → Prop
+  | [] => True
+  | x :: rest => QuietAlong body v (setK v s x) (x :: rest)
+
+/-- **The `for` statement visits exactly `Spec.forRange`** (statement level, all Int64 bounds and steps ≥ 1, all three directions): when the
+header expressions evaluate to `bi`, `ei`, `st` and the body (the statement list, run by `execList`) is quiet along the prescribed run,
+`exec … (.forS v b e step dir body)` ends normally in the state obtained by running the body once for each value of
+`Spec.forRange bi ei st dir`, in order, the control variable set to that value — zero iterations (and the variable untouched) when the
+direction cannot be met. The fuel needed is one more than the closed-form iteration count `Spec.forCount` (≤ |ei−bi|/st + 1):
+the loop terminates, without the control variable ever wrapping around, for every header. (statement_for.cpp) -/
+theorem exec_for_visits (funcs : List Func) (depth fuel : Nat) (v : String) (b e : Expr) (step : Option Expr) (dir : Dir)
+    (body : List Stmt) (s s1 s2 s3 : St) (bi ei st : Int64) (hbud : s.budget ≠ 0)
+    (hb : eval funcs depth fuel b (tick s) = (.ok (.int bi), s1))
+    (he : eval funcs depth fuel e s1 = (.ok (.int ei), s2))
+    (hs : StepEval funcs depth fuel step s2 st s3) (hst : 1 ≤ st.toInt)
+    (hq : QuietFor (execList funcs depth fuel body) v s3 (Spec.forRange bi.toInt ei.toInt st.toInt (specDir dir)))
+    (hfuel : Spec.forCount bi.toInt ei.toInt st.toInt (specDir dir) < fuel) :
+    exec funcs depth (fuel + 1) (.forS v b e step dir body) s =
+      (.ok .norm, runFor (execList funcs depth fuel body) v s3 (Spec.forRange bi.toInt ei.toInt st.toInt (specDir dir))) := by
+  have hst' : ¬ st < 1 := by rw [Int64.lt_iff_toInt_lt]; show ¬ st.toInt < 1; omega
+  rw [exec_for_enter funcs depth fuel v b e step dir body s s1 s2 s3 bi ei st hbud hb he hs hst']
+  have hgt : (ei > bi) ↔ ei.toInt > bi.toInt := by show bi < ei ↔ _; rw [Int64.lt_iff_toInt_lt]
+  have hsetK : setK v s3 bi.toInt = { s3 with vars := setVar s3.vars v (.int bi) } := by simp [setK, Int64.ofInt_toInt]
+  have hlook : lookupVar ({ s3 with vars := setVar s3.vars v (.int bi) } : St).vars v = .int bi := lookup_setVar _ _ _
+  cases fuel with
+  | zero => omega
+  | succ k =>
+  by_cases h : ei > bi
+  · have h' := hgt.mp h
+    simp only [h, if_true]
+    cases hd : dir with
+    | desc => simp [Spec.forRange, h', specDir, runFor]
+    | auto | asc =>
+      all_goals
+        subst hd
+        simp only [Spec.forRange, Spec.forCount, h', if_true, specDir, reduceCtorEq, if_false] at hq hfuel ⊢
+        have hcnt : upCount bi.toInt ei.toInt st.toInt = ((ei.toInt - bi.toInt) / st.toInt).toNat + 1 := by
+          simp [upCount]; omega
+        have hfe : Spec.upFrom ((ei.toInt - bi.toInt).toNat + 1) bi.toInt ei.toInt st.toInt = Spec.upFrom (k + 1) bi.toInt ei.toInt st.toInt :=
+          upFrom_fuel _ _ (by omega) _ _ _ (upCount_le _ _ _ (by omega) (by omega)) (by omega)
+        rw [hfe] at hq ⊢
+        have hcons : Spec.upFrom (k + 1) bi.toInt ei.toInt st.toInt = bi.toInt :: Spec.upFrom k (bi.toInt + st.toInt) ei.toInt st.toInt := by
+          simp [Spec.upFrom]; omega
+        have hlen : (Spec.upFrom (k + 1) bi.toInt ei.toInt st.toInt).length < k + 1 := by
+          rw [upFrom_length _ _ (by omega)]; omega
+        have hq' : QuietAlong (execList funcs depth (k + 1) body) v { s3 with vars := setVar s3.vars v (.int bi) }
+            (Spec.upFrom (k + 1) bi.toInt ei.toInt st.toInt) := by
+          rw [hcons] at hq; rw [hcons, ← hsetK]; exact hq
+        have := forLoop_visits_up_along (execList funcs depth (k + 1) body) v bi ei st (by omega) (k + 1) bi _ hlook (by omega) hlen hq'
+        simp only [if_false, beq_iff_eq, reduceCtorEq]
+        rw [this, hcons, runFor, hsetK]
+  · have h' : ¬ ei.toInt > bi.toInt := fun hh => h (hgt.mpr hh)
+    have hneq : (ei != bi) = true ↔ ei.toInt ≠ bi.toInt := by
+      rw [bne_iff_ne, ne_eq, ne_eq, ← Int64.toInt_inj]
+    simp only [h, if_false]
+    by_cases hd : dir = .asc ∧ ei.toInt ≠ bi.toInt
+    · obtain ⟨rfl, hd2⟩ := hd
+      have : (ei != bi) = true := hneq.mpr hd2
+      simp [Spec.forRange, h', specDir, runFor, this, hd2]
+    · have hcond : (dir == Dir.asc && ei != bi) = false := by
+        cases hb2 : (dir == Dir.asc && ei != bi)
+        · rfl
+        · exfalso; apply hd
+          simp only [Bool.and_eq_true, beq_iff_eq] at hb2
+          exact ⟨hb2.1, hneq.mp hb2.2⟩
+      have hsd : ¬ (specDir dir = Spec.Direction.asc ∧ ei.toInt ≠ bi.toInt) := by
+        intro ⟨h1, h2⟩; apply hd; refine ⟨?_, h2⟩; cases dir <;> simp_all [specDir]
+      simp only [Spec.forRange, Spec.forCount, h', if_false, hsd] at hq hfuel ⊢
+      have hcnt : downCount bi.toInt ei.toInt st.toInt = ((bi.toInt - ei.toInt) / st.toInt).toNat + 1 := by
+        simp [downCount]; omega
+      have hfe : Spec.downFrom ((bi.toInt - ei.toInt).toNat + 1) bi.toInt ei.toInt st.toInt = Spec.downFrom (k + 1) bi.toInt ei.toInt st.toInt :=
+        downFrom_fuel _ _ (by omega) _ _ _ (downCount_le _ _ _ (by omega) (by omega)) (by omega)
+      rw [hfe] at hq ⊢
+      have hcons : Spec.downFrom (k + 1) bi.toInt ei.toInt st.toInt = bi.toInt :: Spec.downFrom k (bi.toInt - st.toInt) ei.toInt st.toInt := by
+        simp [Spec.downFrom]; omega
+      have hlen : (Spec.downFrom (k + 1) bi.toInt ei.toInt st.toInt).length < k + 1 := by
+        rw [downFrom_length _ _ (by omega)]; omega
+      have hneg : (0 - st).toInt = -st.toInt := toInt_zero_sub st (by omega)
+      have hq' : QuietAlong (execList funcs depth (k + 1) body) v { s3 with vars := setVar s3.vars v (.int bi) }
+          (Spec.downFrom (k + 1) bi.toInt ei.toInt (-(0 - st).toInt)) := by
+        rw [hneg, Int.neg_neg]; rw [hcons] at hq; rw [hcons, ← hsetK]; exact hq
+      have := forLoop_visits_down_along (execList funcs depth (k + 1) body) v ei bi (0 - st) (by omega) (k + 1) bi _ hlook (by omega)
+        (by rw [hneg, Int.neg_neg]; exact hlen) hq'
+      rw [hcond]
+      simp only [Bool.false_eq_true, if_false]
+      rw [this, hneg, Int.neg_neg, hcons, runFor, hsetK]
+
+/-- **Termination** (corollary of `exec_for_visits`): with fuel above `Spec.forCount` — at most `|limit − first| / step + 1 ≤ 2^64`
+(`forCount_le_int64`) — the `for` statement over a quiet body ends normally; in particular it is not cut off as out-of-fuel and the
+control variable never wraps around (also for `for i in 9223372036854775806 to 9223372036854775807`, the pinned build's endless loop). -/
+theorem exec_for_terminates (funcs : List Func) (depth fuel : Nat) (v : String) (b e : Expr) (step : Option Expr) (dir : Dir)
+    (body : List Stmt) (s s1 s2 s3 : St) (bi ei st : Int64) (hbud : s.budget ≠ 0)
+    (hb : eval funcs depth fuel b (tick s) = (.ok (.int bi), s1))
+    (he : eval funcs depth fuel e s1 = (.ok (.int ei), s2))
+    (hs : StepEval funcs depth fuel step s2 st s3) (hst : 1 ≤ st.toInt)
+    (hq : QuietFor (execList funcs depth fuel body) v s3 (Spec.forRange bi.toInt ei.toInt st.toInt (specDir dir)))
+    (hfuel : Spec.forCount bi.toInt ei.toInt st.toInt (specDir dir) < fuel) :
+    (exec funcs depth (fuel + 1) (.forS v b e step dir body) s).1 = .ok .norm := by
+  rw [exec_for_visits funcs depth fuel v b e step dir body s s1 s2 s3 bi ei st hbud hb he hs hst hq hfuel]
+
+/-- the former endless loop: two iterations, ends normally, the control variable ends at INT64_MAX -/
+example : (let r := exec [] 0 10 (.forS "i" (.lit (.int 9223372036854775806)) (.lit (.int 9223372036854775807)) none .auto [.printS [.lit (.str [120])]]) {}
+    (r.1, r.2.out.length, lookupVar r.2.vars "i" == .int 9223372036854775807)) = (.ok .norm, 4, true) := by decide +kernel
+
+/-- A null first bound (typed or untyped): zero iterations; the limit, the step and the body are not even evaluated; the state is the one
+the evaluation of the bound left (for a literal or a variable: unchanged apart from the work budget). -/
+theorem exec_for_null_first (funcs : List Func) (depth fuel : Nat) (v : String) (b e : Expr) (step : Option Expr) (dir : Dir)
+    (body : List Stmt) (s s1 : St) (vb : Val) (hbud : s.budget ≠ 0)
+    (hb : eval funcs depth fuel b (tick s) = (.ok vb, s1)) (hn : vb.isNull = true) :
+    exec funcs depth (fuel + 1) (.forS v b e step dir body) s = (.ok .norm, s1) := by
+  have hbud' : (s.budget == 0) = false := by simpa using hbud
+  unfold tick at hb
+  simp only [exec, hbud', Bool.false_eq_true, if_false, bind_app, pure_app, evalM_ite_app, hb, hn, if_true]
+
+/-- A null limit: zero iterations, step and body not evaluated. -/
+theorem exec_for_null_limit (funcs : List Func) (depth fuel : Nat) (v : String) (b e : Expr) (step : Option Expr) (dir : Dir)
+    (body : List Stmt) (s s1 s2 : St) (vb ve : Val) (hbud : s.budget ≠ 0)
+    (hb : eval funcs depth fuel b (tick s) = (.ok vb, s1)) (hnb : vb.isNull = false)
+    (he : eval funcs depth fuel e s1 = (.ok ve, s2)) (hn : ve.isNull = true) :
+    exec funcs depth (fuel + 1) (.forS v b e step dir body) s = (.ok .norm, s2) := by
+  have hbud' : (s.budget == 0) = false := by simpa using hbud
+  unfold tick at hb
+  simp only [exec, hbud', Bool.false_eq_true, if_false, bind_app, pure_app, evalM_ite_app, hb, he, hnb, hn, if_true]
+
+/-- A null step: zero iterations, the body does not run, the control variable is not assigned. -/
+theorem exec_for_null_step (funcs : List Func) (depth fuel : Nat) (v : String) (b e se : Expr) (dir : Dir)
+    (body : List Stmt) (s s1 s2 s3 : St) (vb ve vs : Val) (hbud : s.budget ≠ 0)
+    (hb : eval funcs depth fuel b (tick s) = (.ok vb, s1)) (hnb : vb.isNull = false)
+    (he : eval funcs depth fuel e s1 = (.ok ve, s2)) (hne : ve.isNull = false)
+    (hs : eval funcs depth fuel se s2 = (.ok vs, s3)) (hn : vs.isNull = true) :
+    exec funcs depth (fuel + 1) (.forS v b e (some se) dir body) s = (.ok .norm, s3) := by
+  have hbud' : (s.budget == 0) = false := by simpa using hbud
+  unfold tick at hb
+  simp only [exec, hbud', Bool.false_eq_true, if_false, bind_app, pure_app, evalM_ite_app, hb, he, hs, hnb, hne, hn, if_true]
+
+/-- A step below 1 (zero, negative — any Int64 `< 1`) raises OUT_OF_RANGE before the control variable is assigned and before anything of the
+body runs: the state is the one left by evaluating the three header expressions. -/
+theorem exec_for_step_below_one (funcs : List Func) (depth fuel : Nat) (v : String) (b e se : Expr) (dir : Dir)
+    (body : List Stmt) (s s1 s2 s3 : St) (vb ve : Val) (st : Int64) (hbud : s.budget ≠ 0)
+    (hb : eval funcs depth fuel b (tick s) = (.ok vb, s1)) (hnb : vb.isNull = false)
+    (he : eval funcs depth fuel e s1 = (.ok ve, s2)) (hne : ve.isNull = false)
+    (hs : eval funcs depth fuel se s2 = (.ok (.int st), s3)) (hlt : st < 1) :
+    exec funcs depth (fuel + 1) (.forS v b e (some se) dir body) s = (.err Gen.EXC_RT_OUT_OF_RANGE [], s3) := by
+  have hbud' : (s.budget == 0) = false := by simpa using hbud
+  have h5 : (Val.int st).isNull = false := rfl
+  have h6 : (Val.int st).asInt = .ok st := rfl
+  unfold tick at hb
+  simp only [exec, hbud', Bool.false_eq_true, if_false, bind_app, pure_app, liftM_app, failE_app, evalM_ite_app, hb, he, hs, hnb, hne, h5, h6, hlt, if_true]
+
+example : (exec [] 0 10 (.forS "i" (.lit (.int 1)) (.lit (.int 9)) (some (.lit (.int 4))) .auto [.printS [.var "i"]]) {}).2.out
+    = [[10], [57], [10], [53], [10], [49]] := by decide +kernel
+
+
+/-- the hypotheses of `exec_for_visits` are satisfiable: `for i in 1 to 10 step 4 loop x = i; end loop` -/
+example : exec [] 0 10 (.forS "i" (.lit (.int 1)) (.lit (.int 10)) (some (.lit (.int 4))) .auto [.letS "x" (.var "i")]) {} =
+    (.ok .norm, runFor (execList [] 0 9 [.letS "x" (.var "i")]) "i" (tick {}) [1, 5, 9]) := by
+  have h := exec_for_visits [] 0 9 "i" (.lit (.int 1)) (.lit (.int 10)) (some (.lit (.int 4))) .auto [.letS "x" (.var "i")]
+    {} (tick {}) (tick {}) (tick {}) 1 10 4 (by decide) (eval_lit ..) (eval_lit ..) (eval_lit ..) (by decide)
+  have hr : Spec.forRange (1 : Int64).toInt (10 : Int64).toInt (4 : Int64).toInt (specDir .auto) = [1, 5, 9] := by decide
+  rw [hr] at h
+  exact h ⟨⟨Or.inl (by decide +kernel), by with_unfolding_all rfl⟩, ⟨Or.inl (by decide +kernel), by with_unfolding_all rfl⟩, ⟨Or.inl (by decide +kernel), by with_unfolding_all rfl⟩⟩ (by decide)
+
+/-- `index += step` on the loop's own (top) control entry -/
+def stepTo (s : St) (j : Nat) : St :=
+  { s with iters := match s.iters with
+      | b :: rest => { b with idx := j } :: rest
+      | [] => [] }
+
+/-- The state after running the body once for every index of the list (the first index is already in place). -/
+def runOverF (body : EvalM Flow) : St → List Nat → St
+  | s, [] => s
+  | s, [_] => bodySt body s
+  | s, _ :: j :: rest => runOverF body (stepTo (bodySt body s) j) (j :: rest)
+
+/-- One body run of a `forall` over a table of `n` elements, at index `i`, is quiet: it ends normally
+(or with `continue`), the loop's control entry is still on top with its index, and the traversed
+table still has `n` elements. -/
+def QuietAtF (body : EvalM Flow) (it : String) (n : Nat) (s : St) (i : Nat) : Prop :=
+  ((body s).1 = .ok .norm ∨ (body s).1 = .ok .cont) ∧
+  ∃ b rest, (body s).2.iters = b :: rest ∧ b.it = it ∧ b.idx = i ∧ tableSize ((body s).2.iterTable b) = n
+
+def QuietAlongF (body : EvalM Flow) (it : String) (n : Nat) : St → List Nat → Prop
+  | _, [] => True
+  | s, [i] => QuietAtF body it n s i
+  | s, i :: j :: rest => QuietAtF body it n s i ∧ QuietAlongF body it n (stepTo (bodySt body s) j) (j :: rest)
+
+/-- **One re-entry of FORALLStatement::doit, for any body**: after a body run that ends normally or with `continue`, the index moves by one
+in the traversal direction and the loop goes on while it stays inside the table *as it is then*. -/
+theorem forallLoop_iteration (body : EvalM Flow) (it : String) (desc : Bool) (k : Nat) (s s1 : St) (r : Flow)
+    (b : Iter) (rest : List Iter) (hb : body s = (.ok r, s1)) (hr : r = .norm ∨ r = .cont)
+    (hi : s1.iters = b :: rest) (hit : b.it = it) :
+    forallLoop body it desc (k + 1) s =
+      match forallNext desc b.idx (tableSize (s1.iterTable b)) with
+      | none => (.ok .norm, s1)
+      | some j => forallLoop body it desc k (stepTo s1 j) := by
+  have hne : (b.it != it) = false := by simp [hit]
+  rcases hr with rfl | rfl
+  all_goals
+    conv => lhs; unfold forallLoop
+    simp only [bind_app, hb, getSt_app, hi, hne, Bool.false_eq_true, if_false]
+    cases hn : forallNext desc b.idx (tableSize (s1.iterTable b)) with
+    | none => rfl
+    | some j => simp only [bind_app, modifySt_app, stepTo, hi]
+
+/-- **forall visits the index trace of the loop header**, each index once, in order: for a body that is quiet along the run (keeps the
+loop's control entry on top and the table length `n`), `forallLoop` started at index `i` ends normally after running the body exactly
+for the indices `forallTrace desc n k (some i)` (C09's header trace), with the iterator at that index. -/
+theorem forallLoop_visits_along (body : EvalM Flow) (it : String) (desc : Bool) (n : Nat) :
+    ∀ (k : Nat) (i : Nat) (s : St),
+      (forallTrace desc n k (some i)).length < k →
+      QuietAlongF body it n s (forallTrace desc n k (some i)) →
+      forallLoop body it desc k s = (.ok .norm, runOverF body s (forallTrace desc n k (some i))) := by
+  intro k
+  induction k with
+  | zero => intro i s hl; simp [forallTrace] at hl
+  | succ k ih =>
+    intro i s hl hq
+    simp only [forallTrace] at hl hq ⊢
+    cases hbs : body s with
+    | mk r s1 =>
+    have hs1 : bodySt body s = s1 := by simp [bodySt, hbs]
+    cases hnx : forallNext desc i n with
+    | none =>
+      have hnil : forallTrace desc n k none = [] := by cases k <;> rfl
+      rw [hnx] at hq
+      rw [hnil] at hq ⊢
+      obtain ⟨hn, b, rest, hi, hit, hidx, hsz⟩ := hq
+      rw [hbs] at hn hi hsz
+      simp only at hn hi hsz
+      have hr : ∃ fl, r = .ok fl ∧ (fl = .norm ∨ fl = .cont) := by
+        rcases hn with h | h
+        · exact ⟨_, h, Or.inl rfl⟩
+        · exact ⟨_, h, Or.inr rfl⟩
+      obtain ⟨fl, rfl, hfl⟩ := hr
+      rw [forallLoop_iteration body it desc k s s1 fl b rest hbs hfl hi hit, hidx, hsz, hnx]
+      simp [runOverF, hs1]
+    | some j =>
+      rw [hnx] at hl hq
+      cases k with
+      | zero => simp [forallTrace] at hl
+      | succ k' =>
+        have hcons : forallTrace desc n (k' + 1) (some j) = j :: forallTrace desc n k' (forallNext desc j n) := rfl
+        rw [hcons] at hq
+        obtain ⟨⟨hn, b, rest, hi, hit, hidx, hsz⟩, hrest⟩ := hq
+        rw [hbs] at hn hi hsz
+        simp only at hn hi hsz
+        have hr : ∃ fl, r = .ok fl ∧ (fl = .norm ∨ fl = .cont) := by
+          rcases hn with h | h
+          · exact ⟨_, h, Or.inl rfl⟩
+          · exact ⟨_, h, Or.inr rfl⟩
+        obtain ⟨fl, rfl, hfl⟩ := hr
+        rw [forallLoop_iteration body it desc (k' + 1) s s1 fl b rest hbs hfl hi hit, hidx, hsz, hnx]
+        simp only []
+        rw [hs1, ← hcons] at hrest
+        have := ih j (stepTo s1 j) (by simp only [List.length_cons] at hl; omega) hrest
+        rw [this, hcons, runOverF, hs1]
+
+/-- **forall visits every element exactly once in the requested order**: started at the first index (`0`, or `n−1` for `desc`) on a table
+of `n > 0` elements, with fuel above `n`, the loop runs the body exactly for `forallOrder desc n` = `0,…,n−1` resp. `n−1,…,0`
+(C09.forall_visits_once_in_order: no duplicates, every index `< n`). (statement_forall.cpp) -/
+theorem forallLoop_visits_order (body : EvalM Flow) (it : String) (desc : Bool) (n k : Nat) (s : St)
+    (hn : 0 < n) (hk : n < k)
+    (hq : QuietAlongF body it n s (forallOrder desc n)) :
+    forallLoop body it desc k s = (.ok .norm, runOverF body s (forallOrder desc n)) := by
+  have h9 := (C09.forall_visits_once_in_order desc n).1
+  have hfirst : forallFirst desc n = some (if desc then n - 1 else 0) := by
+    unfold forallFirst; simp; omega
+  rw [hfirst] at h9
+  have hlen : (forallTrace desc n (n + 1) (some (if desc then n - 1 else 0))).length < n + 1 := by
+    rw [h9]; cases desc <;> simp [forallOrder]
+  have hk' : k = (n + 1) + (k - (n + 1)) := by omega
+  have htr : forallTrace desc n k (some (if desc then n - 1 else 0)) = forallOrder desc n := by
+    rw [hk', forallTrace_fuel desc n (n + 1) _ hlen, h9]
+  have := forallLoop_visits_along body it desc n k (if desc then n - 1 else 0) s (by rw [htr]; rw [h9] at hlen; omega) (by rw [htr]; exact hq)
+  rw [this, htr]
+
+/-- The control entry a `forall it in t` pushes. -/
+def forallEntry (s : St) (it t : String) (desc : Bool) (n : Nat) : Iter :=
+  { it := it, src := some t, priv := .null Ty.none, idx := if desc then n - 1 else 0,
+    bak := (lookupVar s.vars it).type, locked := s.iters.any (·.src == some t) }
+
+/-- **FORALLStatement::doit, first entry, over a table variable**: the table is read once; a control entry (iterator name, traversed
+variable, first index, the iterator variable's former type, the inherited lock) is pushed; the loop runs; `forallExit` pops it. -/
+theorem exec_forall_var_enter (funcs : List Func) (depth fuel : Nat) (it t : String) (dir : Dir) (body : List Stmt)
+    (s : St) (ty : Ty) (d : List Ty) (es : List Val) (hbud : s.budget ≠ 0)
+    (ht : lookupVar s.vars t = .tab ty d es) (hl : (ty.level == 0) = false) (hne : es ≠ [])
+    (hit : s.iters.any (·.it == it) = false) (htt : s.iters.any (·.it == t) = false) :
+    exec funcs depth (fuel + 2) (.forallS it (.var t) dir body) s =
+      forallExit it (forallLoop (execList funcs depth (fuel + 1) body) it (dir == .desc) (fuel + 1)
+        { tick s with iters := forallEntry s it t (dir == .desc) es.length :: s.iters }) := by
+  have hbud' : (s.budget == 0) = false := by simpa using hbud
+  have hrd : readVar (tick s) t = .ok (.tab ty d es) := by
+    unfold readVar tick
+    simp only [find_none_of_any_false _ _ htt, ht]
+  have hnull : (Val.tab ty d es).isNull = false := rfl
+  have hlev : ((Val.tab ty d es).type.level == 0) = false := hl
+  have hsz : (tableSize (.tab ty d es) == 0) = false := by
+    cases es with
+    | nil => exact absurd rfl hne
+    | cons x xs => simp [tableSize]
+  simp only [exec, eval, hbud', Bool.false_eq_true, if_false, bind_app, pure_app, getSt_app, liftM_app, evalM_ite_app]
+  unfold tick at hrd
+  simp only [hrd, hnull, hlev, hsz, hit, Bool.false_eq_true, if_false]
+  generalize (s.iters.any fun x => x.it == t) = c at htt ⊢
+  subst htt
+  rfl
+
+/-- **The `forall` statement over a table variable** visits `forallOrder` (every element once, in the requested order) and is then left
+through `forallExit` (iterator constraint and table lock released: `forallExit_pops`). -/
+theorem exec_forall_var_visits (funcs : List Func) (depth fuel : Nat) (it t : String) (dir : Dir) (body : List Stmt)
+    (s : St) (ty : Ty) (d : List Ty) (es : List Val) (hbud : s.budget ≠ 0)
+    (ht : lookupVar s.vars t = .tab ty d es) (hl : (ty.level == 0) = false) (hne : es ≠ [])
+    (hit : s.iters.any (·.it == it) = false) (htt : s.iters.any (·.it == t) = false)
+    (hfuel : es.length < fuel + 1)
+    (hq : QuietAlongF (execList funcs depth (fuel + 1) body) it es.length
+      { tick s with iters := forallEntry s it t (dir == .desc) es.length :: s.iters } (forallOrder (dir == .desc) es.length)) :
+    exec funcs depth (fuel + 2) (.forallS it (.var t) dir body) s =
+      forallExit it (.ok .norm, runOverF (execList funcs depth (fuel + 1) body)
+        { tick s with iters := forallEntry s it t (dir == .desc) es.length :: s.iters } (forallOrder (dir == .desc) es.length)) := by
+  rw [exec_forall_var_enter funcs depth fuel it t dir body s ty d es hbud ht hl hne hit htt]
+  have hpos : 0 < es.length := by cases es with | nil => exact absurd rfl hne | cons _ _ => simp
+  rw [forallLoop_visits_order _ it (dir == .desc) es.length (fuel + 1) _ hpos hfuel hq]
+
+/-- **A write through the iterator lands in the table**: `it = e` while `it` is the iterator of a running forall over table variable `t`
+(not read-only) replaces exactly element `idx` of `t` by the value of `e` (same type required) — `getElem?_listPut`: position `idx`
+becomes `v`, every other position is unchanged, the length is unchanged (C09.forall_length_fixed) — and assigns no other variable. (statement_let.cpp) -/
+theorem exec_let_through_iterator (funcs : List Func) (depth fuel : Nat) (n t : String) (e : Expr) (s s1 : St)
+    (b0 b : Iter) (v old : Val) (ty : Ty) (d : List Ty) (es : List Val) (hbud : s.budget ≠ 0)
+    (h0 : s.iters.find? (·.it == n) = some b0) (hlock : b0.locked = false)
+    (he : eval funcs depth fuel e (tick s) = (.ok v, s1))
+    (h1 : s1.iters.find? (·.it == n) = some b) (hsrc : b.src = some t)
+    (ht : lookupVar s1.vars t = .tab ty d es) (hold : es[b.idx]? = some old) (hty : v.type = old.type) :
+    exec funcs depth (fuel + 1) (.letS n e) s =
+      (.ok .norm, { s1 with vars := setVar s1.vars t (.tab ty d (listPut es b.idx v)) }) := by
+  have hbud' : (s.budget == 0) = false := by simpa using hbud
+  have hit : s1.iterTable b = .tab ty d es := by unfold St.iterTable; rw [hsrc]; exact ht
+  have hstep : forallStep (.tab ty d es) b.idx v = .ok (.tab ty d (listPut es b.idx v)) := by
+    unfold forallStep; simp [hold, hty]
+  unfold tick at he
+  simp only [exec, hbud', Bool.false_eq_true, if_false, bind_app, pure_app, getSt_app, modifySt_app, liftM_app, evalM_ite_app,
+    h0, hlock, he, h1, hit, hstep, hsrc]
+
+def tI3 : Val := .tab { major := .int, level := 1 } [] [.int 1, .int 2, .int 3]
+
+/-- `forall e in t desc loop print e; end loop` prints 3, 2, 1 and leaves no control entry behind -/
+example : (let r := exec [] 0 10 (.forallS "e" (.var "t") .desc [.printS [.var "e"]]) { vars := [("t", tI3)] }
+    (r.2.out, r.2.iters.length)) = ([[10], [49], [10], [50], [10], [51]], 0) := by decide +kernel
+
+/-- `forall e in t loop e = e + 10; end loop`: the writes land in the table, element by element -/
+example : (let r := exec [] 0 10 (.forallS "e" (.var "t") .auto [.letS "e" (.bin .add (.var "e") (.lit (.int 10)))]) { vars := [("t", tI3)] }
+    lookupVar r.2.vars "t" == .tab { major := .int, level := 1 } [] [.int 11, .int 12, .int 13]) = true := by decide +kernel
+
+/-- the hypotheses of `exec_forall_var_visits` are satisfiable (one-element table, empty body) -/
+example : exec [] 0 3 (.forallS "e" (.var "t") .auto []) { vars := [("t", .tab { major := .int, level := 1 } [] [.int 7])] } =
+    forallExit "e" (.ok .norm, runOverF (execList [] 0 2 [])
+      { tick { vars := [("t", .tab { major := .int, level := 1 } [] [.int 7])] } with
+        iters := [forallEntry { vars := [("t", .tab { major := .int, level := 1 } [] [.int 7])] } "e" "t" false 1] } [0]) :=
+  exec_forall_var_visits [] 0 1 "e" "t" .auto [] _ { major := .int, level := 1 } [] [.int 7] (by decide) (by with_unfolding_all rfl) (by decide) (by simp)
+    (by decide) (by decide) (by decide) ⟨Or.inl (by decide +kernel), _, _, by with_unfolding_all rfl, rfl, rfl, by with_unfolding_all rfl⟩
+
+/-- **Leaving a forall by any route** (`FORALLStatement::finalizeControl`, also run by `Context::onRuntimeError`): whatever the outcome `r` of
+the loop (normal, return, BLOC error, hazard, out of fuel), exactly the loop's own control entry is popped, the iterator variable becomes
+a null of the type it had before the loop, and output, saved return value and budget are untouched. -/
+theorem forallExit_pops (it : String) (r : Res Flow) (s : St) (b : Iter) (rest : List Iter) (h : s.iters = b :: rest) :
+    forallExit it (r, s) = (r, { s with iters := rest, vars := setVar s.vars it (.null b.bak) }) ∧
+    (forallExit it (r, s)).2.iters = rest ∧
+    lookupVar (forallExit it (r, s)).2.vars it = .null b.bak ∧
+    (forallExit it (r, s)).2.out = s.out ∧ (forallExit it (r, s)).2.returned = s.returned ∧
+    (forallExit it (r, s)).2.budget = s.budget := by
+  have e : forallExit it (r, s) = (r, { s with iters := rest, vars := setVar s.vars it (.null b.bak) }) := by
+    unfold forallExit; simp only [h]
+  rw [e]
+  exact ⟨rfl, rfl, lookup_setVar _ _ _, rfl, rfl, rfl⟩
+
+/-- **No iterator constraint or table lock survives** (the model's control-stack discipline): for every expression, call, argument list,
+block, statement list, statement, print list and if-chain, at every fuel and depth, from every state and WHATEVER THE OUTCOME (value, any
+Flow, BLOC error, hazard, unmodelled, out of fuel), the names of the running `forall` loops after are exactly those before. Proved by
+mutual induction on the fuel over all eight functions of the interpreter (Lemmas/Interp.lean `sameIters_all`), built-ins included. -/
+theorem iters_balanced (funcs : List Func) (fuel depth : Nat) :
+    (∀ e s, ((eval funcs depth fuel e s).2.iters.map (·.it)) = s.iters.map (·.it)) ∧
+    (∀ name args s, ((callFunc funcs depth fuel name args s).2.iters.map (·.it)) = s.iters.map (·.it)) ∧
+    (∀ args s, ((evalArgs funcs depth fuel args s).2.iters.map (·.it)) = s.iters.map (·.it)) ∧
+    (∀ body catches s, ((execBlock funcs depth fuel body catches s).2.iters.map (·.it)) = s.iters.map (·.it)) ∧
+    (∀ l s, ((execList funcs depth fuel l s).2.iters.map (·.it)) = s.iters.map (·.it)) ∧
+    (∀ st s, ((exec funcs depth fuel st s).2.iters.map (·.it)) = s.iters.map (·.it)) ∧
+    (∀ es s, ((evalPrint funcs depth fuel es s).2.iters.map (·.it)) = s.iters.map (·.it)) ∧
+    (∀ rules s, ((execIf funcs depth fuel rules s).2.iters.map (·.it)) = s.iters.map (·.it)) := by
+  have key : ∀ (s s' : St), SameIters s s' → s'.iters.map (·.it) = s.iters.map (·.it) := by
+    intro s s' h
+    have e : (fun x : Iter => x.it) = (fun k : String × Option String × Nat × Ty × Bool => k.1) ∘ iterKey := rfl
+    unfold SameIters at h
+    rw [e, ← List.map_map, ← List.map_map, h]
+  obtain ⟨h1, h2, h3, h4, h5, h6, h7, h8⟩ := sameIters_all funcs fuel
+  exact ⟨fun e s => key _ _ ((h1 depth e).h s), fun n a s => key _ _ ((h2 depth n a).h s), fun a s => key _ _ ((h3 depth a).h s),
+    fun b c s => key _ _ ((h4 depth b c).h s), fun l s => key _ _ ((h5 depth l).h s), fun st s => key _ _ ((h6 depth st).h s),
+    fun es s => key _ _ ((h7 depth es).h s), fun r s => key _ _ ((h8 depth r).h s)⟩
+
+/-- Stronger form for statements: not only the names — the whole control entries (traversed variable, index, saved type, lock flag) of the
+enclosing loops are as before; a statement can only change the private copy of a traversed temporary (by writing through its iterator). -/
+theorem exec_iters_frames (funcs : List Func) (fuel depth : Nat) (st : Stmt) (s : St) :
+    (exec funcs depth fuel st s).2.iters.map iterKey = s.iters.map iterKey :=
+  ((sameIters_all funcs fuel).2.2.2.2.2.1 depth st).h s
+
+/-- The condition test of `WHILEStatement::doit`: null counts as false. -/
+def whileTest (v : Val) : Res Bool := if v.isNull then Res.ok false else v.asBool
+
+/-- A null or false condition ends the while loop normally without running the body. -/
+theorem whileLoop_false (cond : EvalM Val) (body : EvalM Flow) (k : Nat) (s s1 : St) (v : Val)
+    (hc : cond s = (.ok v, s1)) (ht : whileTest v = .ok false) :
+    whileLoop cond body (k + 1) s = (.ok .norm, s1) := by
+  unfold whileTest at ht
+  unfold whileLoop
+  simp only [bind_app, hc, liftM_app, ht, pure_app, Bool.not_false, if_true, evalM_ite_app]
+
+/-- `break` ends exactly the innermost (while) loop: the loop itself ends normally. -/
+theorem whileLoop_break (cond : EvalM Val) (body : EvalM Flow) (k : Nat) (s s1 s2 : St) (v : Val)
+    (hc : cond s = (.ok v, s1)) (ht : whileTest v = .ok true) (hb : body s1 = (.ok .brk, s2)) :
+    whileLoop cond body (k + 1) s = (.ok .norm, s2) := by
+  unfold whileTest at ht
+  unfold whileLoop
+  simp only [bind_app, hc, liftM_app, ht, pure_app, Bool.not_true, Bool.false_eq_true, if_false, evalM_ite_app, hb]
+
+/-- `return` leaves the while loop and stays pending for the enclosing function or program. -/
+theorem whileLoop_return (cond : EvalM Val) (body : EvalM Flow) (k : Nat) (s s1 s2 : St) (v : Val)
+    (hc : cond s = (.ok v, s1)) (ht : whileTest v = .ok true) (hb : body s1 = (.ok .ret, s2)) :
+    whileLoop cond body (k + 1) s = (.ok .ret, s2) := by
+  unfold whileTest at ht
+  unfold whileLoop
+  simp only [bind_app, hc, liftM_app, ht, pure_app, Bool.not_true, Bool.false_eq_true, if_false, evalM_ite_app, hb]
+
+/-- `continue` (like a normal end of the body) goes back to the condition of this same loop. -/
+theorem whileLoop_continue (cond : EvalM Val) (body : EvalM Flow) (k : Nat) (s s1 s2 : St) (v : Val) (fl : Flow)
+    (hc : cond s = (.ok v, s1)) (ht : whileTest v = .ok true) (hb : body s1 = (.ok fl, s2)) (hfl : fl = .norm ∨ fl = .cont) :
+    whileLoop cond body (k + 1) s = whileLoop cond body k s2 := by
+  unfold whileTest at ht
+  conv => lhs; unfold whileLoop
+  rcases hfl with rfl | rfl <;>
+  simp only [bind_app, hc, liftM_app, ht, pure_app, Bool.not_true, Bool.false_eq_true, if_false, evalM_ite_app, hb]
+
+/-- An error in the body ends the while loop with that error, from the state the body left. -/
+theorem whileLoop_error (cond : EvalM Val) (body : EvalM Flow) (k : Nat) (s s1 s2 : St) (v : Val) (c : Nat) (a : Bytes)
+    (hc : cond s = (.ok v, s1)) (ht : whileTest v = .ok true) (hb : body s1 = (.err c a, s2)) :
+    whileLoop cond body (k + 1) s = (.err c a, s2) := by
+  unfold whileTest at ht
+  unfold whileLoop
+  simp only [bind_app, hc, liftM_app, ht, pure_app, Bool.not_true, Bool.false_eq_true, if_false, evalM_ite_app, hb]
+
+/-- `break` ends exactly the innermost (forall) loop. -/
+theorem forallLoop_break (body : EvalM Flow) (it : String) (desc : Bool) (k : Nat) (s s1 : St)
+    (hb : body s = (.ok .brk, s1)) : forallLoop body it desc (k + 1) s = (.ok .norm, s1) := by
+  unfold forallLoop; simp only [bind_app, hb, pure_app]
+
+/-- `return` leaves the forall loop and stays pending. -/
+theorem forallLoop_return (body : EvalM Flow) (it : String) (desc : Bool) (k : Nat) (s s1 : St)
+    (hb : body s = (.ok .ret, s1)) : forallLoop body it desc (k + 1) s = (.ok .ret, s1) := by
+  unfold forallLoop; simp only [bind_app, hb, pure_app]
+
+/-- An error in the body ends the forall loop with that error (the control entry is then popped by `forallExit`). -/
+theorem forallLoop_error (body : EvalM Flow) (it : String) (desc : Bool) (k : Nat) (s s1 : St) (c : Nat) (a : Bytes)
+    (hb : body s = (.err c a, s1)) : forallLoop body it desc (k + 1) s = (.err c a, s1) := by
+  unfold forallLoop; simp only [bind_app, hb]
+
+/-- `Executable::run` stops at the first statement that ends with a pending break / continue / return: the rest of the list does not run and
+the condition is handed to the enclosing construct (the innermost loop for break/continue). -/
+theorem execList_stops (funcs : List Func) (depth fuel : Nat) (st : Stmt) (rest : List Stmt) (s s1 : St) (fl : Flow)
+    (h : exec funcs depth fuel st s = (.ok fl, s1)) (hfl : fl ≠ .norm) :
+    execList funcs depth (fuel + 1) (st :: rest) s = (.ok fl, s1) := by
+  have : (fl == Flow.norm) = false := by cases fl <;> simp_all
+  simp only [execList, bind_app, h, this, Bool.false_eq_true, if_false, pure_app, evalM_ite_app]
+
+/-- A statement that ends normally is followed by the rest of the list, from the state it left. -/
+theorem execList_continues (funcs : List Func) (depth fuel : Nat) (st : Stmt) (rest : List Stmt) (s s1 : St)
+    (h : exec funcs depth fuel st s = (.ok .norm, s1)) :
+    execList funcs depth (fuel + 1) (st :: rest) s = execList funcs depth fuel rest s1 := by
+  simp only [execList, bind_app, h, beq_self_eq_true, if_true, evalM_ite_app]
+
+/-- An error in a statement ends the list with that error. -/
+theorem execList_error (funcs : List Func) (depth fuel : Nat) (st : Stmt) (rest : List Stmt) (s s1 : St) (c : Nat) (a : Bytes)
+    (h : exec funcs depth fuel st s = (.err c a, s1)) :
+    execList funcs depth (fuel + 1) (st :: rest) s = (.err c a, s1) := by
+  simp only [execList, bind_app, h]
 
 end BlocV.C06
